@@ -42,7 +42,9 @@ def check_framing(model, col, rule):
         if "WriteTo" not in cls.methods:
             continue
         nsec += 1
-        f = cls.methods["WriteTo"]
+        from ..sem import expand_helpers as _xh07
+
+        f = _xh07(model, cls, cls.methods["WriteTo"])
         t = Terms(model, f)
         outp = f.args.args[1].arg
         out = t.out(outp)
@@ -303,7 +305,11 @@ def run(model, col, tier):
                   f"on the path [{ctext}] the running local index advances but the local is neither appended as a new group nor merged into the last one: "
                   "later local.get/local.set refer to a local that is not declared", WA, al)
         if merged:
-            same_type = any(".Type == " in t and v for t, v in conds) or any(".Type == " in t for t, v in conds if v)
+            from ..paths import cond_atoms as _ca07
+            from ..sem import local_env as _le07
+
+            atoms07 = _ca07(evs, _le07(al, allow_impure=True))
+            same_type = any(".Type == " in k_ and v_ is True for k_, v_ in atoms07.items())
             col.check(same_type, "R07.4", f"{WA}::Code.AddLocal merge only for the same type", "merging happens under a type-equality test", "a local is merged into the previous group without a type-equality test", WA, al)
         if appended:
             sets_last = any(e.kind == "stmt" and isinstance(e.node, ast.Assign) and "__lastLocal" in unparse(e.node.targets[0]) and unparse(e.node.value) == lp for e in evs)
